@@ -7,7 +7,7 @@
                 shape includes the set of field / variant names: `decl_stable`).
    pres m     : m preserves wf and extends the state, whenever it returns Ok. *)
 From Coq Require Import String List NArith ZArith PArith Bool Lia FMapPositive.
-From Sylt Require Import Syntax.Resolved Types.TyGraph Types.Tc.
+From Sylt Require Import Syntax.Resolved Types.TyGraph Types.DeclOrder Types.Tc.
 Import ListNotations.
 Local Open Scope positive_scope.
 Local Open Scope tc_scope.
@@ -1770,8 +1770,15 @@ Ltac prs1 :=
 Ltac prs := repeat prs1.
 
 (* ------------------------------------------------------------------ the order in which solve checks the statements *)
-(* since /repo 3c0758d: the type declarations (blobs and enums) once, in the order of the file, then all the statements *)
-Definition check_order (stmts : list stmt) : list stmt := filter is_type_decl stmts ++ stmts.
+(* the type declarations (blobs and enums) once, each after the declarations it mentions (/repo 3c0758d, 58eff66:
+   DeclOrder.type_decl_order), then all the statements *)
+Definition check_order (stmts : list stmt) : list stmt := type_decl_order stmts ++ stmts.
+
+Lemma is_type_decl_var d : is_type_decl d = true <-> decl_var d <> None.
+Proof. destruct d; cbn; split; intros H; try reflexivity; try discriminate; try congruence; exfalso; now apply H. Qed.
+
+Lemma type_decl_order_In stmts d : In d (type_decl_order stmts) -> In d stmts /\ is_type_decl d = true.
+Proof. intros H. destruct (type_decl_order_sound stmts d H) as [H1 H2]. split; [exact H1|now apply is_type_decl_var]. Qed.
 
 Lemma iterM_app {A} (f : A -> M unit) l1 l2 s : iterM f (l1 ++ l2) s = (iterM f l1 ;;; iterM f l2) s.
 Proof.
@@ -1792,12 +1799,11 @@ Lemma solve_order kinds G R stmts start s :
    end) s.
 Proof.
   unfold solve, check_order. unfold bind at 1. symmetry. unfold bind at 1. rewrite iterM_app. unfold bind at 1.
-  destruct (iterM (fun st => outer_statement kinds G R st ctx_new) (filter is_type_decl stmts) s) as [[u s1]| | |]; reflexivity.
+  destruct (iterM (fun st => outer_statement kinds G R st ctx_new) (type_decl_order stmts) s) as [[u s1]| | |]; reflexivity.
 Qed.
 
 Lemma check_order_no_decl stmts : forallb (fun st => negb (is_type_decl st)) stmts = true -> check_order stmts = stmts.
 Proof.
-  intros H. unfold check_order. replace (filter is_type_decl stmts) with (@nil stmt); [reflexivity|].
-  induction stmts as [|x l IH]; [reflexivity|]. cbn [forallb filter] in *. apply andb_true_iff in H as [H1 H2].
-  destruct (is_type_decl x); [discriminate|auto].
+  intros H. unfold check_order. rewrite type_decl_order_no_decl; [reflexivity|].
+  intros d Hd. rewrite forallb_forall in H. specialize (H d Hd). destruct d; cbn in *; try reflexivity; discriminate.
 Qed.
